@@ -138,6 +138,26 @@ pub fn realise_decorated(g: &Graph, real: Real, order: &[usize], refs_other_case
         "externals-to-all" => ("", ""),
         _ => ("", ""),
     };
+    if let Some(rest) = decoration.strip_prefix("neighbour-") {
+        // an unrelated, valid declaration directly before or directly after the declarations of the graph
+        let (kind, first) = match rest.rsplit_once('-') {
+            Some((k, "first")) => (k, true),
+            Some((k, _)) => (k, false),
+            None => (rest, true),
+        };
+        let nb = match kind {
+            "in-out-last" => "FUNCTION_BLOCK Nb\nVAR\n  x : INT;\nEND_VAR\nVAR_IN_OUT\n  total : INT;\nEND_VAR\n  x := total;\nEND_FUNCTION_BLOCK\n",
+            "input-last" => "FUNCTION_BLOCK Nb\nVAR\n  x : INT;\nEND_VAR\nVAR_INPUT\n  total : INT;\nEND_VAR\n  x := total;\nEND_FUNCTION_BLOCK\n",
+            "output-last" => "FUNCTION_BLOCK Nb\nVAR_INPUT\n  x : INT;\nEND_VAR\nVAR_OUTPUT\n  total : INT;\nEND_VAR\n  total := x;\nEND_FUNCTION_BLOCK\n",
+            "constant-last" => "FUNCTION_BLOCK Nb\nVAR\n  x : INT;\nEND_VAR\nVAR CONSTANT\n  k : INT := 3;\nEND_VAR\n  x := k;\nEND_FUNCTION_BLOCK\n",
+            "function" => "FUNCTION Nf : INT\nVAR_INPUT\n  a : INT;\nEND_VAR\n  Nf := a;\nEND_FUNCTION\n",
+            "enumeration-and-array" => "TYPE\n  NbLevel : (NbLo, NbHi) := NbLo;\n  NbArr : ARRAY [1..3] OF INT;\n  NbRng : INT (1..5);\nEND_TYPE\n",
+            "initialised-structure-variable-last" => "TYPE\n  NbPt : STRUCT\n    x : INT;\n  END_STRUCT;\nEND_TYPE\nFUNCTION_BLOCK Nb\nVAR\n  p : NbPt := (x := 1);\nEND_VAR\nEND_FUNCTION_BLOCK\n",
+            _ => "PROGRAM NbMain\nVAR\n  n : INT;\nEND_VAR\n  n := 1;\nEND_PROGRAM\nCONFIGURATION nbcfg\nRESOURCE nbres ON PLC\nTASK nbt (INTERVAL := T#100ms, PRIORITY := 1);\nPROGRAM nbp WITH nbt : NbMain;\nEND_RESOURCE\nEND_CONFIGURATION\n",
+        };
+        let inner = realise_decorated(g, real, order, refs_other_case, "");
+        return if first { format!("{}{}", nb, inner) } else { format!("{}{}", inner, nb) };
+    }
     if !decoration.is_empty() {
         s.push_str("TYPE\n  Pdeco : STRUCT\n    x : INT;\n  END_STRUCT;\n  Ldeco : (Lo, Hi);\nEND_TYPE\n");
     }
@@ -445,6 +465,27 @@ pub fn run(ctx: &mut Ctx) {
             for real in [Real::Fb, Real::Struct] {
                 for o in decos {
                     cases.push(Case { g: g.clone(), real, order_name: o, family: format!("decorated-n{}", n) });
+                }
+            }
+        }
+    }
+    // neighbours: an unrelated valid declaration (its last variable of each class, a function, plain types, an
+    // initialised structure variable, a program with its configuration) directly before or after the graph's declarations
+    {
+        const NEIGHBOURS: [&str; 16] = [
+            "asc+neighbour-in-out-last-first", "asc+neighbour-in-out-last-last", "asc+neighbour-input-last-first", "asc+neighbour-input-last-last", "asc+neighbour-output-last-first", "asc+neighbour-output-last-last",
+            "asc+neighbour-constant-last-first", "asc+neighbour-constant-last-last", "asc+neighbour-function-first", "asc+neighbour-function-last", "asc+neighbour-enumeration-and-array-first",
+            "asc+neighbour-enumeration-and-array-last", "asc+neighbour-initialised-structure-variable-last-first", "asc+neighbour-initialised-structure-variable-last-last", "asc+neighbour-program-and-configuration-first",
+            "asc+neighbour-program-and-configuration-last",
+        ];
+        for n in 1..=3usize {
+            let bits = n * n;
+            for mask in 0u64..(1u64 << bits) {
+                let g = Graph::from_mask(n, mask);
+                for real in [Real::Fb, Real::Struct, Real::AliasMix] {
+                    for o in NEIGHBOURS {
+                        cases.push(Case { g: g.clone(), real, order_name: o, family: format!("neighbours-n{}", n) });
+                    }
                 }
             }
         }
